@@ -5,7 +5,7 @@ import warnings
 import numpy as np
 import pandas as pd
 
-from .. import common
+from .. import common, checklib
 from ..rtc import par
 
 LEVEL = "exploration"
@@ -194,7 +194,13 @@ def _chunk(task):
     return out
 
 
+def PROOFS():
+    from ..contracts import config_c
+    return [("vf.contracts.config_c", config_c.FUNCTIONS)]
+
+
 def run(report, findings):
+    checklib.run_proofs(report, "C10", PROOFS())
     seeds = [common.seed()] if report.tier == "quick" else [common.seed() + i for i in range(6)]
     evals = ok = bad = 0
     allres = check_config()
